@@ -2,7 +2,10 @@
 // (see ../../selftest_expected.json). It is analysed on every run of c19_extract.sh before the real module.
 package p
 
-import "sort"
+import (
+	"sort"
+	"sync"
+)
 
 var table = []int{1, 2, 3}
 var scratch []int
@@ -129,4 +132,66 @@ func OwnChannel() int {
 	c := make(chan int, 1)
 	c <- 1
 	return <-c
+}
+
+// ---- package initialisation ----------------------------------------------------------------------------
+
+// initTable is filled once by init() (through a helper only init calls) and only read afterwards: not a
+// write to shared state.
+var initTable [8]int
+
+// initTable2 is filled by init() too, but ALSO written by an exported function and by a helper that an
+// exported function shares with init: flagged.
+var initTable2 [8]int
+
+var built = buildSlice(4)
+
+func init() {
+	for i := range initTable {
+		initTable[i] = i * i
+	}
+	fillRest()
+	fill2()
+}
+
+func fillRest() { initTable[7] = 49 }
+
+func fill2() { initTable2[1] = 1 }
+
+func buildSlice(n int) []int {
+	r := make([]int, n)
+	r[0] = initTable[0]
+	return r
+}
+
+func ReadsInitTable(i int) int { return initTable[i] + built[0] }
+
+func ResetTable2() { initTable2[0] = 0 }
+
+func Refill2() { fill2() }
+
+// ---- sync.Pool (allowed) and a hand-rolled synchronised cache (stays flagged) ------------------------------
+
+var pool = sync.Pool{New: func() interface{} { return new(T) }}
+
+func UsesPool(x int) int {
+	t := pool.Get().(*T)
+	t.n = x
+	t.xs = append(t.xs[:0], x)
+	n := t.n + len(t.xs)
+	pool.Put(t)
+	return n
+}
+
+var mu sync.Mutex
+var cache = map[int]int{}
+
+func Cached(n int) int {
+	mu.Lock()
+	defer mu.Unlock()
+	if v, ok := cache[n]; ok {
+		return v
+	}
+	cache[n] = n * n
+	return n * n
 }
